@@ -364,4 +364,513 @@ pub fn model_lines(run: &mut Run, tier: &str, seed: u64, only: Option<&str>) {
             ban_case(run, &id, s, e);
         }
     }
+    susp_model_lines(run, tier, seed, only);
+    stk_model_lines(run, tier, seed, only);
+}
+
+// ------------------------------------------------------------------------------------------------
+// check_suspicion (`TooSuspicious::new`) vs Model/Suspicion.lean: SUSP / SUSPX lines
+
+use rosu_pp::{
+    model::hit_object::{HitObject, HitObjectKind},
+    Beatmap,
+};
+
+use crate::common::{decode, mode_idx, mode_of};
+
+/// `count` objects, the `j`-th starting at `t + (j as f64) * step`
+#[derive(Clone, Debug)]
+pub struct Grp {
+    pub t: f64,
+    /// 'c' circle, 's' slider, 'p' spinner, 'h' hold note
+    pub kind: char,
+    pub rep: usize,
+    pub x: f32,
+    pub y: f32,
+    pub count: usize,
+    pub step: f64,
+}
+
+impl Grp {
+    pub fn one(t: f64, kind: char, rep: usize, x: f32, y: f32) -> Self {
+        Self { t, kind, rep, x, y, count: 1, step: 0.0 }
+    }
+
+    pub fn run(t: f64, count: usize, step: f64) -> Self {
+        Self { t, kind: 'c', rep: 0, x: 256.0, y: 192.0, count, step }
+    }
+}
+
+fn is_int(v: f64) -> bool {
+    v.is_finite() && v.fract() == 0.0 && v.abs() < 9.0e15
+}
+
+/// request lines for a feature list: IEEE replay, plus the exact-integer line if every value is an integer
+pub fn susp_requests(mode: u8, groups: &[Grp]) -> (String, Option<String>) {
+    use std::fmt::Write as _;
+    let mut s = format!("SUSP {mode} ");
+    let mut x = format!("SUSPX {mode} ");
+    let mut exact = true;
+    if groups.is_empty() {
+        s.push('-');
+        x.push('-');
+    }
+    for (i, g) in groups.iter().enumerate() {
+        if i > 0 {
+            s.push(';');
+            x.push(';');
+        }
+        let _ = write!(s, "{:x}:{}:{}:{:x}:{:x}", g.t.to_bits(), g.kind, g.rep, g.x.to_bits(), g.y.to_bits());
+        if g.count != 1 {
+            let _ = write!(s, ":{}:{:x}", g.count, g.step.to_bits());
+        }
+        exact = exact && is_int(g.t) && is_int(f64::from(g.x)) && is_int(f64::from(g.y)) && (g.count == 1 || (is_int(g.step) && is_int(g.t + g.count as f64 * g.step)));
+        if exact {
+            let _ = write!(x, "{}:{}:{}:{}:{}", g.t as i64, g.kind, g.rep, g.x as i64, g.y as i64);
+            if g.count != 1 {
+                let _ = write!(x, ":{}:{}", g.count, g.step as i64);
+            }
+        }
+    }
+    (s, exact.then_some(x))
+}
+
+/// the feature list `TooSuspicious::new` reads of a map (one group per object)
+pub fn susp_features(map: &Beatmap) -> Vec<Grp> {
+    map.hit_objects
+        .iter()
+        .map(|h| {
+            let (kind, rep) = match h.kind {
+                HitObjectKind::Circle => ('c', 0),
+                HitObjectKind::Slider(ref s) => ('s', s.repeats),
+                HitObjectKind::Spinner(_) => ('p', 0),
+                HitObjectKind::Hold(_) => ('h', 0),
+            };
+            Grp::one(h.start_time, kind, rep, h.pos.x, h.pos.y)
+        })
+        .collect()
+}
+
+/// `map.check_suspicion()` as the model prints it: `ok` or the variant's `Debug` name
+pub fn susp_observed(map: &Beatmap) -> String {
+    match guarded(|| map.check_suspicion()) {
+        Ok(Ok(())) => "ok".to_owned(),
+        Ok(Err(e)) => format!("{e:?}"),
+        Err(_) => "PANIC".to_owned(),
+    }
+}
+
+/// the SUSP (and SUSPX) lines of a decoded map: `(request, observed)`
+pub fn susp_lines_of_map(map: &Beatmap) -> Vec<(String, String)> {
+    let obs = susp_observed(map);
+    let (s, x) = susp_requests(mode_idx(map.mode), &susp_features(map));
+    let mut v = vec![(s, obs.clone())];
+    if let Some(x) = x {
+        v.push((x, obs));
+    }
+    v
+}
+
+/// template objects (circle, slider, spinner, hold) obtained from the decoder, so that no struct
+/// literal of the library's types is needed
+fn templates() -> Option<[HitObject; 4]> {
+    let text = "osu file format v14\n\n[General]\nMode: 3\n\n[Difficulty]\nSliderMultiplier:1\nSliderTickRate:1\n\n[TimingPoints]\n0,500,4,2,0,100,1,0\n\n[HitObjects]\n\
+        64,192,1000,1,0\n\
+        192,192,2000,128,0,2500:0:0:0:0:\n";
+    let text2 = "osu file format v14\n\n[General]\nMode: 0\n\n[Difficulty]\nSliderMultiplier:1\nSliderTickRate:1\n\n[TimingPoints]\n0,500,4,2,0,100,1,0\n\n[HitObjects]\n\
+        100,100,1000,2,0,L|200:100,1,100\n\
+        256,192,3000,12,0,4000\n";
+    let m1 = decode(text).ok()?;
+    let m2 = decode(text2).ok()?;
+    let circle = m1.hit_objects.iter().find(|h| h.is_circle())?.clone();
+    let hold = m1.hit_objects.iter().find(|h| h.is_hold_note())?.clone();
+    let slider = m2.hit_objects.iter().find(|h| h.is_slider())?.clone();
+    let spinner = m2.hit_objects.iter().find(|h| h.is_spinner())?.clone();
+    Some([circle, slider, spinner, hold])
+}
+
+/// builds the `Beatmap` value of a feature list by field assignment on `Beatmap::default()`
+pub fn synth_map(mode: u8, groups: &[Grp], tpl: &[HitObject; 4]) -> Beatmap {
+    let mut map = Beatmap::default();
+    map.mode = mode_of(mode);
+    let mut objs: Vec<HitObject> = Vec::with_capacity(groups.iter().map(|g| g.count).sum());
+    for g in groups {
+        let mut o = match g.kind {
+            's' => tpl[1].clone(),
+            'p' => tpl[2].clone(),
+            'h' => tpl[3].clone(),
+            _ => tpl[0].clone(),
+        };
+        o.pos.x = g.x;
+        o.pos.y = g.y;
+        if let HitObjectKind::Slider(ref mut s) = o.kind {
+            s.repeats = g.rep;
+        }
+        if g.count == 1 {
+            o.start_time = g.t;
+            objs.push(o);
+        } else {
+            for j in 0..g.count {
+                let mut c = o.clone();
+                c.start_time = g.t + (j as f64) * g.step;
+                objs.push(c);
+            }
+        }
+    }
+    map.hit_objects = objs;
+    map
+}
+
+fn next_up32(v: f32) -> f32 {
+    f32::from_bits(if v >= 0.0 { v.to_bits() + 1 } else { v.to_bits() - 1 })
+}
+
+fn up64(v: f64, n: i64) -> f64 {
+    // n ulps up (n < 0: down) for positive finite v
+    f64::from_bits((v.to_bits() as i64 + n) as u64)
+}
+
+fn susp_case(run: &mut Run, id: &str, mode: u8, groups: &[Grp], tpl: &[HitObject; 4], expect: Option<&str>) {
+    let map = synth_map(mode, groups, tpl);
+    let obs = susp_observed(&map);
+    run.count("model:SUSP synthetic");
+    run.count(&format!("model:SUSP verdict:{obs}"));
+    if let Some(e) = expect {
+        if e != obs {
+            run.fail(
+                "oracle:check-suspicion-threshold",
+                "",
+                id,
+                format!("mode={mode} objects={} expected {e}, check_suspicion answered {obs}", map.hit_objects.len()),
+                format!("synthetic Beatmap: {}", susp_requests(mode, groups).0.chars().take(600).collect::<String>()),
+            );
+        }
+    }
+    let (s, x) = susp_requests(mode, groups);
+    run.line(id, s, obs.clone());
+    if let Some(x) = x {
+        run.count("model:SUSPX lines");
+        run.line(id, x, obs);
+    }
+    run.eval(Some(id));
+}
+
+/// targeted maps around every threshold of `TooSuspicious::new` + random feature lists
+pub fn susp_model_lines(run: &mut Run, tier: &str, seed: u64, only: Option<&str>) {
+    let want = |id: &str| only.is_none_or(|o| o == id);
+    let thorough = tier == "thorough";
+    let Some(tpl) = templates() else {
+        run.fail("oracle:susp-templates", "", "m:susp", "cannot decode the template objects".into(), String::new());
+        return;
+    };
+    let mut rng = Rng::new(seed ^ 0x5055_5350);
+    let mut cases: Vec<(u8, Vec<Grp>, Option<&'static str>)> = Vec::new();
+    const DAY: f64 = 86_400_000.0;
+
+    // --- object count: threshold - 1, threshold, threshold + 1; sparse / dense / longer than a day
+    for mode in 0..4u8 {
+        let thr = if mode == 1 { 20_000usize } else { 500_000 };
+        for n in [thr - 1, thr, thr + 1] {
+            let over = n > thr;
+            // sparse (40 ms apart: below both density limits of every mode), inside one day
+            cases.push((mode, vec![Grp::run(0.0, n, 40.0)], Some(if over { "ObjectCount" } else { "ok" })));
+            // all at the same time: too dense, but the count is tested first
+            cases.push((mode, vec![Grp::run(5.0, n, 0.0)], Some(if over { "ObjectCount" } else { "Density" })));
+            // longer than a day: count first, then length
+            let step = if mode == 1 { 5000.0 } else { 200.0 };
+            cases.push((mode, vec![Grp::run(0.0, n, step)], Some(if over { "ObjectCount" } else { "Length" })));
+        }
+    }
+    // --- length: last - first around one day (ulps), rounding of the subtraction, unsorted, tiny maps
+    for mode in 0..4u8 {
+        for (first, d, exp) in [
+            (0.0, DAY, "ok"),
+            (0.0, up64(DAY, 1), "Length"),
+            (0.0, up64(DAY, -1), "ok"),
+            (0.0, DAY + 1.0, "Length"),
+            (1000.0, DAY, "ok"),
+            (-DAY / 2.0, DAY, "ok"),
+            (0.1, DAY, "ok"),
+            (1.0e9, DAY, "ok"),
+        ] {
+            let last = first + d;
+            // what the code computes: (last - first) > DAY in f64
+            let exp = if first == 0.0 { exp } else if last - first > DAY { "Length" } else { "ok" };
+            cases.push((mode, vec![Grp::one(first, 'c', 0, 0.0, 0.0), Grp::one(last, 'c', 0, 0.0, 0.0)], Some(exp)));
+            cases.push((mode, vec![Grp::one(first, 'c', 0, 0.0, 0.0), Grp::one(first + 3.0 * DAY, 'p', 0, 0.0, 0.0), Grp::one(last, 'h', 0, 0.0, 0.0)], Some(exp)));
+        }
+        cases.push((mode, vec![], Some("ok")));
+        cases.push((mode, vec![Grp::one(1.0e300, 'c', 0, 0.0, 0.0)], Some("ok")));
+        // unsorted: only first and last count
+        cases.push((mode, vec![Grp::one(2.0 * DAY, 'c', 0, 0.0, 0.0), Grp::one(0.0, 'c', 0, 0.0, 0.0)], Some("ok")));
+        cases.push((mode, vec![Grp::one(0.0, 'c', 0, 0.0, 0.0), Grp::one(f64::INFINITY, 'c', 0, 0.0, 0.0)], Some("Length")));
+        cases.push((mode, vec![Grp::one(0.0, 'c', 0, 0.0, 0.0), Grp::one(f64::NAN, 'c', 0, 0.0, 0.0)], Some("ok")));
+    }
+    // --- density: index boundary (len = i + PER vs + 1) and time boundary (exactly 1000.0 / 10000.0 ms)
+    for mode in 0..4u8 {
+        let (p1, p10) = if mode == 3 { (200usize, 500usize) } else { (100, 250) };
+        for lead in [0usize, 1, 7] {
+            let lead_grp = || Grp::run(-1.0e6, lead, 50_000.0);
+            let t0 = 0.0;
+            // PER_1S objects at one time: `len > i + PER` fails; one more: dense
+            cases.push((mode, vec![lead_grp(), Grp::run(t0, p1, 0.0)], Some("ok")));
+            cases.push((mode, vec![lead_grp(), Grp::run(t0, p1 + 1, 0.0)], Some("Density")));
+            // the object PER_1S later exactly 1000.0 ms later / one ulp less / one ulp more
+            for (d, exp) in [(1000.0, "ok"), (up64(1000.0, -1), "Density"), (up64(1000.0, 1), "ok")] {
+                cases.push((mode, vec![lead_grp(), Grp::run(t0, p1, 0.0), Grp::one(t0 + d, 'c', 0, 0.0, 0.0)], Some(exp)));
+            }
+            // 10 s window: groups of PER_1S at one time, 1000 ms apart (never 1 s dense), PER_10S objects in all
+            let full = p10 / p1;
+            let rest = p10 - full * p1;
+            let mut base: Vec<Grp> = vec![lead_grp()];
+            for g in 0..full {
+                base.push(Grp::run(t0 + 1000.0 * g as f64, p1, 0.0));
+            }
+            if rest > 0 {
+                base.push(Grp::run(t0 + 1000.0 * full as f64, rest, 0.0));
+            }
+            cases.push((mode, base.clone(), Some("ok")));
+            for (d, exp) in [(10_000.0, "ok"), (up64(10_000.0, -1), "Density"), (up64(10_000.0, 1), "ok"), (9000.0, "Density")] {
+                let mut v = base.clone();
+                v.push(Grp::one(t0 + d, 'c', 0, 0.0, 0.0));
+                cases.push((mode, v, Some(exp)));
+            }
+        }
+        // evenly spaced: 10 ms = exactly 100 per second (ok outside mania's looser limit, too dense per 10 s)
+        cases.push((mode, vec![Grp::run(0.0, 400, 10.0)], Some(if mode == 3 { "ok" } else { "Density" })));
+        cases.push((mode, vec![Grp::run(0.0, 250, 10.0)], Some("ok")));
+        cases.push((mode, vec![Grp::run(0.0, 251, 10.0)], Some(if mode == 3 { "ok" } else { "Density" })));
+        cases.push((mode, vec![Grp::run(0.0, 5000, 40.0)], Some("ok")));
+        cases.push((mode, vec![Grp::run(0.0, 5000, up64(40.0, -1))], Some(if mode == 3 { "ok" } else { "Density" })));
+        cases.push((mode, vec![Grp::run(0.0, 5000, 20.0)], Some(if mode == 3 { "ok" } else { "Density" })));
+        cases.push((mode, vec![Grp::run(0.0, 5000, up64(20.0, -1))], Some("Density")));
+    }
+    // --- repeats 1000 / 1001, |pos| 10000 vs the next f32, the red flag, the two counters (256 / 257)
+    let beyond = next_up32(10_000.0);
+    for mode in 0..4u8 {
+        let oc = mode == 0 || mode == 2;
+        for rep in [1000usize, 1001] {
+            for (x, y) in [(10_000.0f32, 0.0f32), (beyond, 0.0), (-10_000.0, 5.0), (-beyond, 5.0), (0.0, 10_000.0), (3.0, beyond), (3.0, -beyond), (f32::NAN, 0.0), (f32::INFINITY, 0.0)] {
+                let b = x.abs() > 10_000.0 || y.abs() > 10_000.0;
+                let exp = if rep > 1000 && b && oc { "RedFlag" } else { "ok" };
+                cases.push((mode, vec![Grp::one(0.0, 'c', 0, 0.0, 0.0), Grp::one(100.0, 's', rep, x, y)], Some(exp)));
+                // the same features on a non-slider are never looked at
+                cases.push((mode, vec![Grp::one(100.0, 'h', rep, x, y), Grp::one(200.0, 'p', rep, x, y), Grp::one(300.0, 'c', rep, x, y)], Some("ok")));
+            }
+        }
+        for (n_pos, n_rep) in [(256usize, 256usize), (257, 0), (0, 257), (257, 257), (256, 257), (300, 256)] {
+            let exp = if !oc {
+                "ok"
+            } else if n_pos > 256 {
+                "SliderPositions"
+            } else if n_rep > 256 {
+                "SliderRepeats"
+            } else {
+                "ok"
+            };
+            let mut g1 = Grp::run(0.0, n_rep, 50.0);
+            g1.kind = 's';
+            g1.rep = 1001;
+            let mut g2 = Grp::run(50.0 * n_rep as f64, n_pos, 50.0);
+            g2.kind = 's';
+            g2.rep = 1000;
+            g2.x = beyond;
+            cases.push((mode, vec![g1.clone(), g2.clone()], Some(exp)));
+            cases.push((mode, vec![{ let mut g = g2.clone(); g.t = 0.0; g }, { let mut g = g1.clone(); g.t = 50.0 * n_pos as f64; g }], Some(exp)));
+        }
+        // order inside the loop: the first triggering object decides; density wins on the same object
+        let red = |t: f64| Grp::one(t, 's', 5000, -20_000.0, 0.0);
+        let exp_red = if oc { "RedFlag" } else { "Density" };
+        cases.push((mode, vec![red(-20_000.0), Grp::run(10.0, 600, 0.0)], Some(exp_red)));
+        cases.push((mode, vec![red(0.0), Grp::run(10.0, 600, 0.0)], Some("Density")));
+        cases.push((mode, vec![Grp::run(10.0, 600, 0.0), red(20.0)], Some("Density")));
+        cases.push((mode, vec![{ let mut g = Grp::run(10.0, 600, 0.0); g.kind = 's'; g.rep = 5000; g.x = 20_000.0; g }], Some("Density")));
+        // red flag on an object that is not too dense although later ones are
+        cases.push((mode, vec![Grp::run(0.0, 3, 5000.0), red(20_000.0), Grp::run(30_000.0, 600, 1.0)], Some(exp_red)));
+        // length wins over everything in the loop
+        cases.push((mode, vec![red(0.0), Grp::run(10.0, 600, 0.0), Grp::one(2.0 * DAY, 'c', 0, 0.0, 0.0)], Some("Length")));
+    }
+    // --- random feature lists (all modes): spacings around the density limits, random sliders
+    let n_rand = if thorough { 6000 } else { 700 };
+    for _ in 0..n_rand {
+        let mode = rng.below(4) as u8;
+        let mut groups = Vec::new();
+        let mut t = *rng.pick(&[0.0, -5000.0, 0.5, 1.0e7, 16_777_216.0]);
+        let n_groups = rng.range(1, 8);
+        let integer = rng.chance(1, 2);
+        for _ in 0..n_groups {
+            let step = if integer {
+                *rng.pick(&[0.0, 1.0, 4.0, 5.0, 9.0, 10.0, 11.0, 19.0, 20.0, 21.0, 39.0, 40.0, 41.0, 100.0, 1000.0, 60_000.0])
+            } else {
+                *rng.pick(&[0.1, 9.999, 10.000_000_000_000_002, 10.1, 19.999_999_999_999_996, 20.000_001, 39.999_999_999_999_99, 40.000_000_000_000_01, 3.3, 1000.0 / 3.0])
+            };
+            let count = match rng.below(4) {
+                0 => rng.range(1, 4),
+                1 => rng.range(90, 110),
+                2 => rng.range(190, 260),
+                _ => rng.range(1, 700),
+            } as usize;
+            let kind = *rng.pick(&['c', 'c', 's', 's', 'p', 'h']);
+            let rep = *rng.pick(&[0usize, 1, 999, 1000, 1001, 9000]);
+            let coords: [f32; 8] = [0.0, 256.0, -3.0, 9999.0, 10_000.0, 10_001.0, -10_000.0, -10_001.0];
+            let (x, y) = if integer { (*rng.pick(&coords), *rng.pick(&coords)) } else { (*rng.pick(&[beyond, -beyond, 0.5, 10_000.0]), *rng.pick(&[0.25, beyond, -9999.5])) };
+            groups.push(Grp { t, kind, rep, x, y, count, step });
+            t += count as f64 * step + if integer { *rng.pick(&[0.0, 10.0, 1000.0, 10_000.0, 86_000_000.0]) } else { *rng.pick(&[0.0, 0.3, 999.999_999, 10_000.000_001]) };
+            if rng.chance(1, 12) {
+                t -= 50_000.0; // unsorted
+            }
+        }
+        cases.push((mode, groups, None));
+    }
+    for (i, (mode, groups, expect)) in cases.iter().enumerate() {
+        let id = format!("m:susp:{i}");
+        if want(&id) {
+            susp_case(run, &id, *mode, groups, &tpl, *expect);
+        }
+    }
+}
+
+// ------------------------------------------------------------------------------------------------
+// osu! stacking passes (`stacking`, `old_stacking`) vs Model/StackingFull.lean: STK lines
+
+use rosu_pp::{
+    model::hit_object::Pos,
+    osu::verif::{stacking_probe_map, stacking_probe_synth, StackProbe, StackSynthKind},
+};
+
+fn pos_hex(p: Pos) -> String {
+    format!("{:x},{:x}", p.x.to_bits(), p.y.to_bits())
+}
+
+fn stk_request(old: bool, thr: f64, probe: &StackProbe) -> String {
+    use std::fmt::Write as _;
+    let mut s = format!("STK {} {:x} ", if old { "old" } else { "new" }, thr.to_bits());
+    if probe.objects.is_empty() {
+        s.push('-');
+    }
+    for (i, o) in probe.objects.iter().enumerate() {
+        if i > 0 {
+            s.push(';');
+        }
+        let _ = write!(
+            s,
+            "{}:{:x}:{:x}:{:x}:{:x}:{:x}:{:x}:{}:{}:{}",
+            o.kind,
+            o.pos.x.to_bits(),
+            o.pos.y.to_bits(),
+            o.start_time.to_bits(),
+            o.end_time.to_bits(),
+            o.end_pos.x.to_bits(),
+            o.end_pos.y.to_bits(),
+            o.repeat_count,
+            o.tail.map_or("-".to_owned(), pos_hex),
+            o.first_repeat.map_or("-".to_owned(), pos_hex),
+        );
+    }
+    s
+}
+
+fn heights_str(h: &[i32]) -> String {
+    if h.is_empty() {
+        "e".to_owned()
+    } else {
+        h.iter().map(i32::to_string).collect::<Vec<_>>().join(",")
+    }
+}
+
+/// Runs one pass through `probe_fn(old)`; a panic of the pass becomes the observed value `PANIC` (the
+/// feature snapshot is then taken from the other pass, it does not depend on the pass).
+fn stk_line(old: bool, thr: f64, probe_fn: &dyn Fn(bool) -> StackProbe) -> Option<(String, String)> {
+    match guarded(|| probe_fn(old)) {
+        Ok(p) => Some((stk_request(old, thr, &p), heights_str(&p.heights))),
+        Err(_) => guarded(|| probe_fn(!old)).ok().map(|p| (stk_request(old, thr, &p), "PANIC".to_owned())),
+    }
+}
+
+/// STK lines (both passes) of an osu! map's objects as `convert_objects` builds them
+pub fn stk_lines_of_map(map: &Beatmap, thr: f64) -> Vec<(String, String)> {
+    [false, true].into_iter().filter_map(|old| stk_line(old, thr, &|o| stacking_probe_map(map, o, thr))).collect()
+}
+
+fn stk_synth_case(run: &mut Run, id: &str, objs: &[(Pos, f64, StackSynthKind)], thr: f64) {
+    for old in [false, true] {
+        run.count("model:STK synthetic");
+        match stk_line(old, thr, &|o| stacking_probe_synth(objs, o, thr)) {
+            Some((req, obs)) => {
+                if obs == "PANIC" {
+                    run.fail("oracle:panic", "", id, format!("{} panicked on a synthetic object list", if old { "old_stacking" } else { "stacking" }), req.chars().take(2000).collect());
+                } else {
+                    if obs.split(',').any(|h| h != "0" && h != "e") {
+                        run.count("model:STK synthetic with non-zero heights");
+                    }
+                    if obs.contains('-') {
+                        run.count("model:STK synthetic with negative heights");
+                    }
+                }
+                run.line(id, req, obs);
+            }
+            None => run.fail("oracle:panic", "", id, "both stacking passes panicked on a synthetic object list".into(), format!("{objs:?}").chars().take(2000).collect()),
+        }
+    }
+    run.eval(Some(id));
+}
+
+pub fn stk_model_lines(run: &mut Run, tier: &str, seed: u64, only: Option<&str>) {
+    let want = |id: &str| only.is_none_or(|o| o == id);
+    let thorough = tier == "thorough";
+    let mut rng = Rng::new(seed ^ 0x53544b);
+    let n = if thorough { 6000 } else { 600 };
+    // offsets around STACK_DISTANCE = 3.0 (f32 distance via f64 sqrt)
+    let jit: [f32; 11] = [0.0, 0.0, 0.0, 1.0, 2.0, 2.9, 2.999_999_8, 3.0, 3.000_000_2, 2.121_32, 2.121_320_5];
+    for i in 0..n {
+        let id = format!("m:stk:{i}");
+        let len = match rng.below(6) {
+            0 => rng.range(0, 3),
+            1..=3 => rng.range(3, 14),
+            4 => rng.range(14, 40),
+            _ => rng.range(40, if thorough { 160 } else { 80 }),
+        } as usize;
+        let n_spots = rng.range(1, 4) as usize;
+        let spots: Vec<(f32, f32)> = (0..n_spots).map(|_| (rng.range(0, 512) as f32, rng.range(0, 384) as f32)).collect();
+        let near = |rng: &mut Rng| {
+            let s = *rng.pick(&spots);
+            let (dx, dy) = (*rng.pick(&jit), *rng.pick(&jit));
+            Pos::new(s.0 + if rng.chance(1, 2) { dx } else { -dx }, s.1 + if rng.chance(1, 2) { dy } else { -dy })
+        };
+        let thr = *rng.pick(&[0.0, 100.0, 450.0, 840.0, 1260.0, 1.0e9, f64::INFINITY, -50.0]);
+        let mut t = *rng.pick(&[0.0, 1000.5, -300.0, 16_777_216.0]);
+        let mut objs = Vec::with_capacity(len);
+        for _ in 0..len {
+            t += *rng.pick(&[0.0, 1.0, 50.0, 100.0, 100.0, 250.0, 449.0, 450.0, 451.0, 840.0, 2000.0]);
+            if rng.chance(1, 25) {
+                t -= 700.0; // unsorted
+            }
+            let kind = match rng.below(20) {
+                0..=10 => StackSynthKind::Circle,
+                11..=16 => {
+                    let dur = *rng.pick(&[0.0, 30.0, 100.0, 400.0, 900.0]);
+                    let mut nested = Vec::new();
+                    let reps = rng.below(4);
+                    for _ in 0..rng.below(3) {
+                        nested.push((near(&mut rng), 2));
+                    }
+                    for _ in 0..reps {
+                        nested.push((near(&mut rng), 0));
+                    }
+                    if !rng.chance(1, 8) {
+                        nested.push((near(&mut rng), 1));
+                    }
+                    if rng.chance(1, 10) {
+                        nested.push((near(&mut rng), 2)); // the tail is not always the last nested object
+                    }
+                    StackSynthKind::Slider { end_time: t + dur, nested }
+                }
+                _ => StackSynthKind::Spinner { duration: *rng.pick(&[0.0, 100.0, 1000.0, -50.0]) },
+            };
+            objs.push((near(&mut rng), t, kind));
+        }
+        if want(&id) {
+            stk_synth_case(run, &id, &objs, thr);
+        }
+    }
 }
